@@ -2,14 +2,17 @@
 """Builds /verif/seeded/<ID>-<x>/ (patch.diff, demo.rs, notes.txt, meta.json) from the sub-agent
 deliveries in /tmp/mutants and the lab result files, and prints the kill matrix."""
 import json, os, re, shutil, sys
-SRC='/tmp/mutants'
-RES=['/verif/tools/mutants/RESULTS_seeded_round1.txt','/verif/tools/mutants/RESULTS_round2.txt']
+import sys
+WAVE=sys.argv[1] if len(sys.argv)>1 else '1'
+SRC='/tmp/mutants' if WAVE=='1' else '/tmp/mutants2'
+RES=['/verif/tools/mutants/RESULTS_seeded_round1.txt','/verif/tools/mutants/RESULTS_round2.txt'] if WAVE=='1' else ['/verif/tools/mutants/RESULTS_wave2_round1.txt','/verif/tools/mutants/RESULTS_wave2_round2.txt']
+TAG='' if WAVE=='1' else '2' 
 def parse(path):
     out={}
     if not os.path.exists(path): return out
     cur=None
     for line in open(path):
-        m=re.match(r'=== (C\d+)/([ab])',line)
+        m=re.match(r'=== (C\d+)/([abc])',line)
         if m: cur=f'{m.group(1)}-{m.group(2)}'; out.setdefault(cur,{'verify':[],'checks':{}}); continue
         if cur is None: continue
         if re.match(r'[123] ',line): out[cur]['verify'].append(line.strip())
@@ -21,10 +24,10 @@ os.makedirs('/verif/seeded',exist_ok=True)
 rows=[]
 for pid in sorted(os.listdir(SRC)):
     if not re.match(r'C\d+$',pid): continue
-    for x in 'ab':
+    for x in 'abc':
         d=f'{SRC}/{pid}/{x}'
         if not os.path.exists(f'{d}/patch.diff'): continue
-        key=f'{pid}-{x}'; dst=f'/verif/seeded/{key}'; os.makedirs(dst,exist_ok=True)
+        key=f'{pid}-{x}'; dst=f'/verif/seeded/{pid}-{TAG}{x}'; os.makedirs(dst,exist_ok=True)
         shutil.copy(f'{d}/patch.diff',f'{dst}/patch.diff'); shutil.copy(f'{d}/demo.rs',f'{dst}/demo.rs'); shutil.copy(f'{d}/meta.txt',f'{dst}/notes.txt')
         notes=open(f'{d}/meta.txt').read()
         needs=''
@@ -34,11 +37,11 @@ for pid in sorted(os.listdir(SRC)):
         checks=dict(r1.get(key,{}).get('checks',{}))
         final=dict(checks); final.update(r2.get(key,{}).get('checks',{}))
         caught=[c for c,val in sorted(final.items()) if val['exit']==1]
-        meta={'id':key,'property':pid,'breaks':open(f'{SRC}/{pid}/property.txt').read().split('\n')[0],
-              'origin':'independent sub-agent given only the property text and a scratch worktree of /repo (nothing from /verif)',
+        meta={'id':f'{pid}-{TAG}{x}','wave':int(WAVE),'property':pid,'breaks':open(f'{SRC}/{pid}/property.txt').read().split('\n')[0],
+              'origin':'independent sub-agent given only the property text and a scratch worktree of /repo (nothing from /verif)' + ('' if WAVE=='1' else '; wave 2 was also told which two changes already existed for the property and asked for rarer triggers'),
               'needs_to_manifest':needs,
               'verified_by_me':{'how':'tools/verify_seeded.sh in a scratch worktree (/tmp/mutlab/repo): pinned suite with the change, demonstration with the change, demonstration without it','result':v},
-              'checks_run':{'how':'tools/mutlab.sh try <patch> <IDs> (quick tier, default seed) in the scratch lab','round1_before_generator_changes':checks,'final':final},
+              'checks_run':{'how':'tools/mutlab.sh try <patch> <IDs> (quick tier, default seed) in the scratch lab','first_run':checks,'final':final},
               'caught_by':caught}
         json.dump(meta,open(f'{dst}/meta.json','w'),indent=1)
         rows.append((key,caught,final))
